@@ -13,7 +13,7 @@ calls) to a fresh client with configuration `cfg`; `.2` is everything the client
 
 History.  The guard of fa0779c looked at jabber:client elements only: an `<iq xmlns='urn:foo'>` carrying a jabber:iq:version
 query, or a stream-management `<r/>` after a redirect, was answered in clear; the main theorem then needed the hypothesis
-`noEarlyBypass` and `C04_defect_foreign_namespace_iq_answered_in_clear` proved it necessary.  Repaired by 0b10c27 (before
+`noEarlyBypass` and `C04_defect_foreign_namespace_iq_answered_in_clear` proved it necessary.  Repaired by e3d3c0f (before
 encryption only stream features and stream errors are processed); the witness is kept below with what it produces now.
 Before the repository fixes e0bbad9 ("legacy authentication sends credentials in clear although TLS is required")
 and fa0779c ("stanzas received before STARTTLS are processed and answered in clear although TLS is required") the statement
